@@ -107,14 +107,32 @@ pub struct Failure {
 
 /// Execute an op list against a fresh iterator and the model; stop at the first divergence.
 /// `initial_mask` = Some(M0) starts from legals_masked(M0).
+/// What a `legals_masked(M0)` iterator owes after a later, wider `set_mask(M1)` can be read two ways:
+/// *confined* - it ranges over the moves into M0 only, so M1 shows remaining ∩ M0 ∩ M1; or *literal* -
+/// "restricting an existing iterator to a mask yields exactly the not-yet-yielded legal moves whose
+/// destination lies in the mask", i.e. remaining ∩ M1 whatever M0 was. A history is a violation only
+/// if it fails under BOTH readings (an iterator that shows some moves outside M0 but not all of them
+/// satisfies neither).
 pub fn execute(board: &Board, p: &Position, legal: &[Mv], initial_mask: Option<u64>, ops: &[Op], stats: &mut dyn FnMut(&str)) -> Option<Failure> {
+    let confined = execute_reading(board, p, legal, initial_mask, ops, stats, false);
+    if confined.is_none() || initial_mask.is_none() {
+        return confined;
+    }
+    let mut nop = |_: &str| {};
+    execute_reading(board, p, legal, initial_mask, ops, &mut nop, true)?;
+    let mut f = confined?;
+    f.detail = format!("{} (and the history also fails if a later mask is read as reaching beyond the generation mask)", f.detail);
+    Some(f)
+}
+
+fn execute_reading(board: &Board, p: &Position, legal: &[Mv], initial_mask: Option<u64>, ops: &[Op], stats: &mut dyn FnMut(&str), literal: bool) -> Option<Failure> {
     let mut real = match initial_mask {
         None => board.legals(),
         Some(m) => board.legals_masked(BitBoard::from_u64(m)),
     };
     let m0 = initial_mask.unwrap_or(!0u64);
     let mut model = Model {
-        remaining: legal.iter().copied().filter(|m| m0 & (1u64 << m.to) != 0).collect(),
+        remaining: legal.iter().copied().filter(|m| literal || m0 & (1u64 << m.to) != 0).collect(),
         mask: m0,
     };
     let all: BTreeSet<Mv> = legal.iter().copied().collect();
@@ -429,6 +447,13 @@ impl C10 {
         ops.push(Op::Drain);
         ops.push(Op::Len);
         ops.push(Op::IsEmpty);
+        if im.is_some() {
+            // and then the whole board: under either reading of a widened mask (see `execute`)
+            ops.push(Op::SetMask(!0));
+            ops.push(Op::Len);
+            ops.push(Op::Drain);
+            ops.push(Op::IsEmpty);
+        }
         c.eval();
         c.count(&format!("histories:{label}"));
         c.add("ops", ops.len() as u64);
@@ -529,7 +554,7 @@ impl Oracle for C10 {
         for h in 0..self.histories_per_node {
             let masked = h % 3 == 2;
             let im = if masked { Some(random_mask(rng, n.model, !0)) } else { None };
-            let universe = im.unwrap_or(!0);
+            let universe = if masked && h % 2 == 0 { !0 } else { im.unwrap_or(!0) };
             let len = rng.range(1, 40) as usize;
             let ops = random_ops(rng, n.model, n.legal, universe, len, false);
             self.run_case(c, n, im, ops, if masked { "random-ops-legals_masked" } else { "random-ops-legals" });
